@@ -222,7 +222,7 @@ template<typename Kind, typename T> struct C07Exec {
           else { n.sk->merge(*src.sk); n.model.insert(n.model.end(), src.model.begin(), src.model.end()); check_basic(src, "being merge source"); }
           ctx.nontrivial = true; break;
         }
-        case Q_COPY: { Node& d = nodes[static_cast<size_t>(s.b) % nodes.size()]; if (&d == &n) { *n.sk = *n.sk; } else { d.sk.reset(new S(*n.sk)); d.model = n.model; } break; }
+        case Q_COPY: { Node& d = nodes[static_cast<size_t>(s.b) % nodes.size()]; if (&d == &n) { *n.sk = *n.sk; } else { if (d.sk && (s.c & 1)) { *d.sk = *n.sk; ctx.probe("copy_assign"); } else d.sk.reset(new S(*n.sk)); d.model = n.model; check_read(d, s.b, "copy"); } break; }   // copy assignment onto a live sketch (whatever it cached or flagged), or copy construction; the copy is read at once
         case Q_SERDE: { auto b = n.sk->serialize(0, typename Item<T>::serde()); n.sk.reset(new S(S::deserialize(b.data(), b.size(), typename Item<T>::serde(), Less(), talloc<T>(1)))); ctx.fault("checkpoint_restore"); break; }
         case Q_READ: check_read(n, s.b, "read"); ctx.fault("interleaved_read"); break;
         case Q_INVALID: check_invalid(n); break;
@@ -252,7 +252,7 @@ struct C07World: World {
       else if (roll < 58) { s.kind = Q_MERGE; s.b = static_cast<i64>(rp.below(4)); s.c = static_cast<i64>(rp.below(16)); }
       else if (roll < 66) { s.kind = Q_NEW; s.b = static_cast<i64>(rp.below(8)); }
       else if (roll < 84) { s.kind = Q_READ; s.b = static_cast<i64>(rp.below(1000)); }
-      else if (roll < 89) { s.kind = Q_COPY; s.b = static_cast<i64>(rp.below(4)); }
+      else if (roll < 89) { s.kind = Q_COPY; s.b = static_cast<i64>(rp.below(4)); s.c = static_cast<i64>(rp.below(2)); }
       else if (roll < 94) s.kind = Q_SERDE;
       else s.kind = Q_INVALID;
       p.steps.push_back(s);
